@@ -19,6 +19,7 @@ package main
 //     name its captured variables, which are read as their read-only bindings (c06FreeSub).
 
 import (
+	"fmt"
 	"go/constant"
 	"go/token"
 	"go/types"
@@ -2392,4 +2393,491 @@ func (x *c06Explorer) walk(fr *c06XFrame, b *ssa.BasicBlock, idx int, from *ssa.
 			ip.eval(in, env)
 		}
 	}
+}
+
+// ---------- provenance of a value across the call tree -------------------------------------------------------------------
+
+// c06Prov decides where a value comes from on SSA values, across the call tree: "on every call chain that reaches this
+// point, the value is what was read from field <field> of a <pkg> type" (the statement's trust stores: field TrustStores
+// of a trustpolicy type). How the value travels is immaterial as long as every hop hands on the very same value:
+//
+//   - a parameter of a function that is only ever called statically: the corresponding argument at EVERY call site
+//     (context-insensitive: all callers must agree, which over-approximates the chains that really occur);
+//   - a field read of a struct value (several parameters bundled into a struct, an options/state struct, a method
+//     receiver): the value stored into that very field where the struct was built — a composite literal or a local
+//     filled field by field, each field written once before the first read and the object read-only afterwards, here and in
+//     the callees/closures that see its address (c06FieldLit) — or the same field of the value the struct was copied from
+//     (c06Snapshot); by value or through a pointer (the pointer parameter is the callers' argument);
+//   - a variable captured by a closure: the binding at every site that creates the closure;
+//   - a phi: every incoming value;
+//   - the result of a module function (a constructor that builds the bundle): what each of its returns hands out.
+//
+// Anything else (a value that was computed, re-sliced, loaded from memory that is written elsewhere, received by an
+// exported or dynamically callable function) is not followed: the answer is then "no", and the obligation fails.
+type c06Prov struct {
+	w      *World
+	pkg    string // package (relative to the module) that declares the struct type
+	field  string
+	active map[string]bool
+	steps  int
+}
+
+func c06Prepend(s string, path []string) []string {
+	return append([]string{s}, path...)
+}
+
+// isSource: v reads field <field> of a struct type declared in <pkg> (by value or through a pointer).
+func (p *c06Prov) isSource(v ssa.Value) bool {
+	var t types.Type
+	var idx int
+	switch x := v.(type) {
+	case *ssa.Field:
+		t, idx = x.X.Type(), x.Field
+	case *ssa.UnOp:
+		fa, ok := x.X.(*ssa.FieldAddr)
+		if x.Op != token.MUL || !ok {
+			return false
+		}
+		t, idx = fa.X.Type(), fa.Field
+	default:
+		return false
+	}
+	if fieldName(t, idx) != p.field {
+		return false
+	}
+	if pt, ok := t.Underlying().(*types.Pointer); ok {
+		t = pt.Elem()
+	}
+	if a, ok := t.(*types.Alias); ok {
+		t = types.Unalias(a)
+	}
+	n, ok := t.(*types.Named)
+	return ok && n.Obj().Pkg() != nil && n.Obj().Pkg().Path() == modPath+"/"+p.pkg
+}
+
+var c06StaticMemo = map[*ssa.Function]bool{}
+
+// c06StaticOnly: every execution of fn starts at a static call in the product code: it is a declared, unexported function
+// or method, it is never used as a value (stored, bound, passed, method value/expression), and — for a method — no
+// interface call anywhere in the product names a method of that name (an unexported method can only be invoked through
+// an interface of its own package).
+func c06StaticOnly(w *World, fn *ssa.Function) bool {
+	if r, ok := c06StaticMemo[fn]; ok {
+		return r
+	}
+	r := fn.Parent() == nil && fn.Synthetic == "" && !token.IsExported(fn.Name()) && fn.Blocks != nil
+	for _, g := range w.Funcs {
+		if !r {
+			break
+		}
+		for _, b := range g.Blocks {
+			for _, in := range b.Instrs {
+				if ci, ok := in.(ssa.CallInstruction); ok {
+					cc := ci.Common()
+					if cc.IsInvoke() {
+						if fn.Signature.Recv() != nil && cc.Method != nil && cc.Method.Name() == fn.Name() {
+							r = false
+						}
+					} else if cc.Value == ssa.Value(fn) {
+						if c06ArgIs(ci, fn) {
+							r = false
+						}
+						continue
+					}
+				}
+				for _, op := range in.Operands(nil) {
+					if op != nil && *op == ssa.Value(fn) {
+						r = false
+					}
+				}
+			}
+		}
+	}
+	c06StaticMemo[fn] = r
+	return r
+}
+
+// callers: f holds for the argument in par's position at every static call site of fn (and there is one).
+func (p *c06Prov) callers(fn *ssa.Function, par *ssa.Parameter, f func(g *ssa.Function, a ssa.Value) bool) bool {
+	idx := -1
+	for i, q := range fn.Params {
+		if q == par {
+			idx = i
+		}
+	}
+	if idx < 0 || !c06StaticOnly(p.w, fn) {
+		return false
+	}
+	n := 0
+	for _, g := range p.w.Funcs {
+		if strings.HasPrefix(g.Synthetic, "wrapper for ") {
+			continue // reachable only through an interface value or a method expression, which c06StaticOnly has excluded
+		}
+		for _, ci := range allCalls(g) {
+			if staticCallee(ci) != fn {
+				continue
+			}
+			args := ci.Common().Args
+			if len(args) != len(fn.Params) || g == fn {
+				return false
+			}
+			n++
+			if !f(g, args[idx]) {
+				return false
+			}
+		}
+	}
+	return n > 0
+}
+
+// bindings: f holds for what the free variable is bound to at every site that creates the closure.
+func (p *c06Prov) bindings(fn *ssa.Function, fv *ssa.FreeVar, f func(g *ssa.Function, a ssa.Value) bool) bool {
+	idx := -1
+	for i, q := range fn.FreeVars {
+		if q == fv {
+			idx = i
+		}
+	}
+	par := fn.Parent()
+	if idx < 0 || par == nil {
+		return false
+	}
+	n := 0
+	for _, b := range par.Blocks {
+		for _, in := range b.Instrs {
+			if mc, ok := in.(*ssa.MakeClosure); ok && mc.Fn == ssa.Value(fn) {
+				if idx >= len(mc.Bindings) {
+					return false
+				}
+				n++
+				if !f(par, mc.Bindings[idx]) {
+					return false
+				}
+			}
+		}
+	}
+	return n > 0
+}
+
+func (p *c06Prov) enter(kind string, v ssa.Value, path []string, depth int) (string, bool) {
+	p.steps++
+	if v == nil || depth > 14 || p.steps > 5000 {
+		return "", false
+	}
+	key := fmt.Sprintf("%s/%p/%s", kind, v, strings.Join(path, "."))
+	if p.active[key] {
+		return "", false
+	}
+	p.active[key] = true
+	return key, true
+}
+
+// value: the value v of fn, narrowed by the field path (outermost selection first), is the source field's value.
+func (p *c06Prov) value(fn *ssa.Function, v ssa.Value, path []string, depth int) bool {
+	if len(path) == 0 && p.isSource(v) {
+		return true
+	}
+	key, ok := p.enter("v", v, path, depth)
+	if !ok {
+		return false
+	}
+	defer delete(p.active, key)
+	switch x := v.(type) {
+	case *ssa.Parameter:
+		return p.callers(fn, x, func(g *ssa.Function, a ssa.Value) bool { return p.value(g, a, path, depth+1) })
+	case *ssa.ChangeType:
+		if len(path) == 0 {
+			return p.value(fn, x.X, path, depth+1)
+		}
+	case *ssa.Field:
+		return p.value(fn, x.X, c06Prepend(fieldName(x.X.Type(), x.Field), path), depth+1)
+	case *ssa.Phi:
+		for _, e := range x.Edges {
+			if !p.value(fn, e, path, depth+1) {
+				return false
+			}
+		}
+		return len(x.Edges) > 0
+	case *ssa.UnOp:
+		if x.Op == token.MUL {
+			return p.deref(fn, x.X, path, depth+1)
+		}
+	case *ssa.Call:
+		return p.result(x, 0, 1, func(g *ssa.Function, r ssa.Value) bool { return p.value(g, r, path, depth+1) })
+	case *ssa.Extract:
+		if c, isCall := x.Tuple.(*ssa.Call); isCall {
+			return p.result(c, x.Index, c.Call.Signature().Results().Len(), func(g *ssa.Function, r ssa.Value) bool { return p.value(g, r, path, depth+1) })
+		}
+	}
+	return false
+}
+
+// result: f holds for the k-th value of every return of the module function the call names.
+func (p *c06Prov) result(c *ssa.Call, k, n int, f func(g *ssa.Function, r ssa.Value) bool) bool {
+	g := staticCallee(c)
+	if g == nil || g.Blocks == nil || !p.w.IsProductFn(g) || c.Call.IsInvoke() || g.Signature.Results().Len() != n || g.Recover != nil {
+		return false
+	}
+	m := 0
+	for _, b := range g.Blocks {
+		if r, ok := blockTerm(b).(*ssa.Return); ok {
+			if k >= len(r.Results) || !f(g, r.Results[k]) {
+				return false
+			}
+			m++
+		}
+	}
+	return m > 0
+}
+
+// deref: what is stored at the address ptr of fn, narrowed by the field path, is the source field's value — whenever it is
+// read (the memory is written once, before the first read: c06FieldLit / c06Snapshot).
+func (p *c06Prov) deref(fn *ssa.Function, ptr ssa.Value, path []string, depth int) bool {
+	key, ok := p.enter("d", ptr, path, depth)
+	if !ok {
+		return false
+	}
+	defer delete(p.active, key)
+	switch x := ptr.(type) {
+	case *ssa.Alloc:
+		if len(path) > 0 {
+			if fields, ok := c06FieldLit(x); ok {
+				// the one store that covers the path (a store into the field itself, or into the struct it is nested in); a field
+				// that was never written holds the zero value, one that is covered twice is not decided
+				n, k := 0, 0
+				for i := 1; i <= len(path); i++ {
+					if _, has := fields[strings.Join(path[:i], ".")]; has {
+						n, k = n+1, i
+					}
+				}
+				if n == 1 {
+					return p.value(fn, fields[strings.Join(path[:k], ".")], path[k:], depth+1)
+				}
+				return false
+			}
+		}
+		if snap := c06Snapshot(x); snap != nil {
+			return p.value(fn, snap, path, depth+1)
+		}
+	case *ssa.FieldAddr:
+		return p.deref(fn, x.X, c06Prepend(fieldName(x.X.Type(), x.Field), path), depth+1)
+	case *ssa.Parameter:
+		return p.callers(fn, x, func(g *ssa.Function, a ssa.Value) bool { return p.deref(g, a, path, depth+1) })
+	case *ssa.FreeVar:
+		return p.bindings(fn, x, func(g *ssa.Function, a ssa.Value) bool { return p.deref(g, a, path, depth+1) })
+	case *ssa.Phi:
+		for _, e := range x.Edges {
+			if !p.deref(fn, e, path, depth+1) {
+				return false
+			}
+		}
+		return len(x.Edges) > 0
+	case *ssa.Call:
+		// a constructor that hands out the address of a fresh object: nobody writes through the result here (in the callee the
+		// object must be complete and read-only but for being returned: c06FieldLit)
+		if !c06ReadOnly(x, 0, nil) {
+			return false
+		}
+		return p.result(x, 0, 1, func(g *ssa.Function, r ssa.Value) bool {
+			al, isAlloc := r.(*ssa.Alloc)
+			if !isAlloc || !c06OnlyCalledReadOnly(p.w, g) {
+				return false
+			}
+			return p.deref(g, al, path, depth+1)
+		})
+	}
+	return false
+}
+
+// c06OnlyCalledReadOnly: g is only called statically and no caller writes through (or keeps) the pointer it returns.
+func c06OnlyCalledReadOnly(w *World, g *ssa.Function) bool {
+	if !c06StaticOnly(w, g) {
+		return false
+	}
+	for _, f := range w.Funcs {
+		for _, ci := range allCalls(f) {
+			if staticCallee(ci) != g {
+				continue
+			}
+			c, ok := ci.(*ssa.Call)
+			if !ok || !c06ReadOnly(c, 0, nil) {
+				return false
+			}
+		}
+	}
+	return true
+}
+
+// c06ReadOnlyBut is c06ReadOnly with a set of excepted stores (the initialising stores of the fields) that is handed down
+// to the field addresses, and — for an object a constructor hands out — tolerating that the address is returned.
+func c06ReadOnlyBut(v ssa.Value, depth int, except map[*ssa.Store]bool, retOK bool) bool {
+	if depth > 5 {
+		return false
+	}
+	refs := v.Referrers()
+	if refs == nil {
+		return false
+	}
+	for _, r := range *refs {
+		switch x := r.(type) {
+		case *ssa.DebugRef:
+		case *ssa.UnOp:
+			if x.Op != token.MUL {
+				return false
+			}
+		case *ssa.Store:
+			if except[x] && x.Addr == v && x.Val != v {
+				continue
+			}
+			return false
+		case *ssa.FieldAddr:
+			if !c06ReadOnlyBut(x, depth+1, except, false) {
+				return false
+			}
+		case *ssa.IndexAddr:
+			if !c06ReadOnly(x, depth+1, nil) {
+				return false
+			}
+		case *ssa.Return:
+			if !retOK {
+				return false
+			}
+		case *ssa.MakeInterface:
+			if !onlyFormatted(x, 0) {
+				return false
+			}
+		case *ssa.MakeClosure:
+			fn, ok := x.Fn.(*ssa.Function)
+			if !ok {
+				return false
+			}
+			for i, b := range x.Bindings {
+				if b == v {
+					if i >= len(fn.FreeVars) || !c06ReadOnly(fn.FreeVars[i], depth+1, nil) {
+						return false
+					}
+				}
+			}
+		case *ssa.Call:
+			g := staticCallee(x)
+			if g == nil || g.Blocks == nil || x.Call.IsInvoke() || len(x.Call.Args) != len(g.Params) {
+				return false
+			}
+			for i, a := range x.Call.Args {
+				if a == v && !c06ReadOnly(g.Params[i], depth+1, nil) {
+					return false
+				}
+			}
+		default:
+			return false
+		}
+	}
+	return true
+}
+
+// c06FieldLit: the struct object al is built field by field — each field (of the object or of a struct nested in it: the
+// key is then the dotted path) written at most once, by a plain store in the block that creates the object and before
+// anything reads the object or sees its address — and is read-only afterwards, in this function and in the callees and
+// closures its address reaches (a constructor may return it): field path -> stored value. Every read of a field, whenever
+// it happens and through whichever copy of the address, yields that value.
+func c06FieldLit(al *ssa.Alloc) (map[string]ssa.Value, bool) {
+	pt, ok := al.Type().Underlying().(*types.Pointer)
+	if !ok || al.Referrers() == nil {
+		return nil, false
+	}
+	if _, isStruct := pt.Elem().Underlying().(*types.Struct); !isStruct {
+		return nil, false
+	}
+	out := map[string]ssa.Value{}
+	except := map[*ssa.Store]bool{}
+	last := -1
+	var collect func(base ssa.Value, prefix string, depth int) bool
+	collect = func(base ssa.Value, prefix string, depth int) bool {
+		if base.Referrers() == nil || depth > 4 {
+			return false
+		}
+		for _, r := range *base.Referrers() {
+			fa, ok := r.(*ssa.FieldAddr)
+			if !ok || fa.Referrers() == nil {
+				continue
+			}
+			name := prefix + fieldName(base.Type(), fa.Field)
+			for _, rr := range *fa.Referrers() {
+				st, ok := rr.(*ssa.Store)
+				if !ok || st.Addr != ssa.Value(fa) {
+					continue
+				}
+				if _, dup := out[name]; dup || st.Block() != al.Block() || st.Val == ssa.Value(fa) {
+					return false
+				}
+				out[name] = st.Val
+				except[st] = true
+				if i := instrIndex(st); i > last {
+					last = i
+				}
+			}
+			if !collect(fa, name+".", depth+1) {
+				return false
+			}
+		}
+		return true
+	}
+	if !collect(al, "", 0) || !c06ReadOnlyBut(al, 0, except, true) {
+		return nil, false
+	}
+	// nothing looks at the object before it is complete
+	var early func(base ssa.Value) bool
+	early = func(base ssa.Value) bool {
+		for _, r := range *base.Referrers() {
+			if st, isSt := r.(*ssa.Store); isSt && except[st] {
+				continue
+			}
+			if fa, ok := r.(*ssa.FieldAddr); ok {
+				if fa.Referrers() != nil && early(fa) {
+					return true
+				}
+				continue
+			}
+			if _, dbg := r.(*ssa.DebugRef); !dbg && r.Block() == al.Block() && instrIndex(r) < last {
+				return true
+			}
+		}
+		return false
+	}
+	if early(al) {
+		return nil, false
+	}
+	return out, true
+}
+
+// c06ScannedLists: the lists whose elements the helper judges by their type prefix — the operand of strings.Cut /
+// strings.HasPrefix is an element of the list (range or index loop).
+func c06ScannedLists(g *ssa.Function) []ssa.Value {
+	var out []ssa.Value
+	seen := map[ssa.Value]bool{}
+	for _, ci := range findCalls(g, "strings.Cut", "strings.HasPrefix", "strings.Index", "strings.SplitN", "strings.Split") {
+		args := ci.Common().Args
+		if len(args) == 0 {
+			continue
+		}
+		ld, ok := unwrap(args[0]).(*ssa.UnOp)
+		if !ok || ld.Op != token.MUL {
+			continue
+		}
+		ia, ok := ld.X.(*ssa.IndexAddr)
+		if !ok {
+			continue
+		}
+		if !seen[ia.X] {
+			seen[ia.X] = true
+			out = append(out, ia.X)
+		}
+	}
+	return out
+}
+
+// c06FromPolicyStores: the value is, on every call chain, the TrustStores field of a trust policy statement.
+func c06FromPolicyStores(w *World, fn *ssa.Function, v ssa.Value) bool {
+	p := &c06Prov{w: w, pkg: "verifier/trustpolicy", field: "TrustStores", active: map[string]bool{}}
+	return p.value(fn, v, nil, 0)
 }
